@@ -239,6 +239,36 @@ func lifecycleOracleOn(c *Ctx, evs []vh.Event, cfgExtensions []string) {
 						ok = true
 					}
 				}
+				if !ok && rd.Etype == "Runtime.Unknown" {
+					// a reset was requested in this episode and cancelled the init before the events watcher had
+					// recorded any of the deaths: the platform could not know about them yet (a process that
+					// died is a fault for the platform from the moment its watcher has dealt with the event)
+					resetAsked, recorded, firstDeath := false, false, int64(0)
+					for _, e := range evs {
+						if e.Seq <= lower || e.Seq >= rd.Seq {
+							continue
+						}
+						if e.Src == "sup" && e.Kind == "exit" && firstDeath == 0 {
+							firstDeath = e.Seq
+						}
+						if (e.Src == "hook" && e.Kind == "hit" && (e.Op == "invoke.timeoutFired" || e.Op == "invoke.releaseFailed")) || (e.Src == "drv" && e.Kind == "call" && e.Op == "reset") {
+							resetAsked = true
+						}
+						if e.Src == "hook" && e.Kind == "hit" && e.Op == "watchEvents.exitRecorded" && firstDeath != 0 {
+							recorded = true
+						}
+					}
+					onlyDeaths := true
+					for _, f := range fs {
+						if f != "Runtime.ExitError" && f != "Extension.Crash" && !strings.HasSuffix(f, "?") {
+							onlyDeaths = false
+						}
+					}
+					if resetAsked && !recorded && onlyDeaths {
+						ok = true
+						c.Counter("init_cancelled_by_reset_before_death_was_recorded", 1)
+					}
+				}
 				// a reset (timeout) before any fault is "no fault" too
 				c.Check(ok, "init_error_type_truthful", "C15/init-error-type/"+rd.Etype+"-expected-"+want, fmt.Sprintf("init-runtime-done error type %q, faults so far %v", rd.Etype, fs), nil)
 			}
